@@ -90,6 +90,9 @@ pub enum Payload {
 	Error { code: i32, message: Option<String>, data: Option<Option<Value>> },
 	/// handler blocks / subscription machinery: not judged by this oracle
 	Skip,
+	/// a registered subscribe / unsubscribe name: what is answered depends on the transport and on the handler actors, but
+	/// the name is bound, so the answer is never "method not found"
+	Bound,
 }
 
 fn err_code(code: i32) -> Payload {
@@ -104,8 +107,8 @@ pub fn expected_payload(method: &str, params: Option<&J>) -> Payload {
 		_ => (method, ""),
 	};
 	if !crate::fix::server::is_registered_call(method) {
-		if ["sub_a", "sub_b", "unsub_a", "unsub_b"].contains(&method) {
-			return Payload::Skip;
+		if ["sub_a", "sub_b", "unsub_a", "unsub_b", "sub_r", "unsub_r"].contains(&method) {
+			return Payload::Bound;
 		}
 		return err_code(-32601);
 	}
@@ -222,6 +225,13 @@ pub fn value_eq(a: &Value, b: &Value) -> bool {
 pub fn payload_matches(reply: &Value, payload: &Payload) -> Result<(), String> {
 	match payload {
 		Payload::Skip => Ok(()),
+		Payload::Bound => {
+			if reply.get("error").and_then(|e| e.get("code")).and_then(|c| c.as_i64()) == Some(-32601) {
+				Err("the method name is registered (a subscription): 'method not found' is the one answer it cannot get".into())
+			} else {
+				Ok(())
+			}
+		}
 		Payload::Result(v) => {
 			if reply.get("result").is_some_and(|r| value_eq(r, v)) {
 				Ok(())
